@@ -179,6 +179,13 @@ def shim(module, names, explicit):
         g[n] = v
 
 
+def shim_all(module):
+    g = module.__dict__
+    for n, v in _sh.STANDARD.items():
+        if n in _sh.BUILTIN_SHIMS or n in g:
+            g[n] = v
+
+
 def shim_defaults(fn, names):
     """replace captured default arguments (e.g. pack=struct.pack) by the standard shims"""
     import inspect
